@@ -130,12 +130,7 @@ theorem mem_upsert {e x : Inst} {d : Desc} (h : x ∈ upsert e d) : x = e ∨ x 
 
 /-! ## the per-key step -/
 
-/-- rank in the last-writer-wins order: newer timestamp first, tombstone breaks ties -/
-def rk (e : Inst) : Int := 2 * e.ts + (if e.state = .LEFT then 1 else 0)
-
-def rkO : Option Inst → Int
-  | none => 0
-  | some e => rk e
+-- `rk` / `rkO` (rank in the last-writer-wins order) are defined in `Model/C03.lean`
 
 /-- the acceptance test of the merge loop on the current value `t` of the key -/
 def accept (t : Option Inst) (o : Inst) : Bool :=
